@@ -86,14 +86,25 @@ pub open spec fn t_ok_after_open(d: DocV) -> bool { !tr(d, true).o2b && !tr(d, f
 pub open spec fn t_closes(d: DocV) -> bool { !tr(d, true).o2o && !tr(d, false).o2o && t_ok_after_open(d) }
 
 // ===== N : nesting amounts (C12) =====
-/// every `Nest(k, _)` in `d` has k == unit, except below an `Align` (comment continuation lines are exempt)
+/// only Nil / Text / Hardline / Cat: what comment.rs puts below its `align()` / `hang(1)`
+pub open spec fn plain_lines(d: DocV) -> bool decreases d {
+    match d {
+        DocV::Nil => true,
+        DocV::Text(_) => true,
+        DocV::Hardline => true,
+        DocV::Cat(a, b) => plain_lines(*a) && plain_lines(*b),
+        _ => false,
+    }
+}
+/// every `Nest(k, _)` in `d` has k == unit; column alignment (`Align`) is allowed only for the continuation lines of a
+/// comment, i.e. `Align(plain lines)` or `Align(Nest(1, plain lines))` (the property's stated exemption)
 pub open spec fn nest_ok(d: DocV, unit: int) -> bool decreases d {
     match d {
         DocV::Cat(a, b) => nest_ok(*a, unit) && nest_ok(*b, unit),
         DocV::Nest(k, a) => k == unit && nest_ok(*a, unit),
         DocV::Group(a) => nest_ok(*a, unit),
         DocV::FlatAlt(a, b) => nest_ok(*a, unit) && nest_ok(*b, unit),
-        DocV::Align(_) => true,
+        DocV::Align(a) => plain_lines(*a) || (match *a { DocV::Nest(k, b) => k == 1 && plain_lines(*b), _ => false }),
         _ => true,
     }
 }
@@ -139,4 +150,20 @@ pub open spec fn pieces(d: DocV) -> Seq<DocV> decreases d {
         DocV::Cat(a, b) => pieces(*a) + pieces(*b),
         _ => seq![d],
     }
+}
+
+// ===== bundles used in converter contracts =====
+/// what every converter guarantees about its result for C12 and C04/C06 (safety part)
+pub open spec fn doc_ok(d: DocV, unit: int) -> bool { nest_ok(d, unit) && t_safe(d) }
+/// ... and additionally never ends inside a line comment
+pub open spec fn doc_closed(d: DocV, unit: int) -> bool { nest_ok(d, unit) && t_closed(d) }
+
+pub proof fn lemma_repeat_doc_hardline(n: nat, unit: int)
+    ensures doc_closed(repeat_doc(DocV::Hardline, n), unit), n > 0 ==> t_closes(repeat_doc(DocV::Hardline, n)),
+        t_ok_after_open(repeat_doc(DocV::Hardline, n)) || n == 0,
+        plain_lines(repeat_doc(DocV::Hardline, n)),
+    decreases n,
+{
+    reveal_with_fuel(tr, 3); reveal_with_fuel(nest_ok, 3); reveal_with_fuel(plain_lines, 3);
+    if n > 0 { lemma_repeat_doc_hardline((n - 1) as nat, unit); }
 }
